@@ -49,6 +49,18 @@ func devMain(args []string) {
 	eng.timeoutS = *timeout
 	defer cleanupSMT()
 	fmt.Printf("loaded in %.1fs; %d contracts\n", eng.loadSeconds, len(eng.specs.Funcs))
+	if *showWrites == "LIST" {
+		for k, fns := range eng.funcs {
+			for _, f := range fns {
+				nb := 0
+				for _, b := range f.Blocks {
+					nb += len(b.Instrs)
+				}
+				fmt.Printf("%s | %s | synthetic=%q instrs=%d typeparams=%d\n", short(k), short(f.String()), f.Synthetic, nb, f.TypeParams().Len())
+			}
+		}
+		return
+	}
 	if *showWrites != "" {
 		for k, fns := range eng.funcs {
 			if strings.Contains(k, *showWrites) {
@@ -101,6 +113,9 @@ func devMain(args []string) {
 			continue
 		}
 		for _, f := range fns {
+			if f.TypeParams().Len() > 0 && len(f.TypeArgs()) == 0 {
+				continue // generic body: its instances are verified
+			}
 			rep := eng.VerifyFunc(f)
 			if rep.Error != "" {
 				fmt.Printf("!! %s: %s\n", rep.Func, rep.Error)
